@@ -4,7 +4,7 @@
    on the same side of every code token; a comment's wording changes only by nrm (delimiter padding). *)
 From Coq Require Import List Ascii String Bool Arith.
 Import ListNotations.
-From F0 Require Import F0s Specs P1 P2 P3g P5 P6 P7 P8 P9 P10 P11 Canon P12 P13 Canonize P14 P15 P16a P16 P17 P18 P19.
+From F0 Require Import F0s Specs P1 P2 P3g P5 P6 P7 P8 P9 P10 P11 Canon P12 P13 Canonize P14 P15 P16a P16 P17 P18 P19 P20.
 
 Theorem C03_interleaving : forall f, flexseq (canon_file f) = map nrm (flexseq f).
 Proof. exact flexseq_canon. Qed.
@@ -25,3 +25,12 @@ Print Assumptions C03_no_absorb.
 Theorem C03_respelling_idempotent : forall raw, spec_comment_inline (spec_comment_inline raw) = spec_comment_inline raw.
 Proof. exact sci_idem. Qed.
 Print Assumptions C03_respelling_idempotent.
+
+(* end to end over the external parser: the rebuilt text parses to a tree with the same tokens and comments in order *)
+Theorem C03_source : forall ts_parse : str -> option cfile,
+  (forall src f, ts_parse src = Some f -> ftext f = src) ->
+  (forall src f, ts_parse src = Some f -> wf_file f -> ts_parse (ftext (canon_file f)) = Some (canon_file f)) ->
+  forall src f, ts_parse src = Some f -> wf_file f ->
+  exists f', ts_parse (roundtrip f) = Some f' /\ flexseq f' = map nrm (flexseq f).
+Proof. exact (fun ts _ Hstable => P20.C03_source ts Hstable). Qed.
+Print Assumptions C03_source.
